@@ -501,6 +501,25 @@ func c13SuiteHandshake(tier string) []c13Input {
 			return 0, r.C.Err
 		}
 	}
+	serverRunSSL := func(script func(p *peerConn)) func() (int, error) {
+		return func() (int, error) {
+			sc := baseCfg(security.SecurityRequired, security.SecurityNever, []security.AuthMethod{security.AuthSSL, security.AuthSciTokens}, nil, true)
+			r := hsRun(hsOpts{ServerCfg: sc, Watchdog: 120 * time.Second, ClientScript: func(e *netsim.End) error {
+				script(&peerConn{end: e})
+				return fmt.Errorf("script done")
+			}})
+			if r.S.Neg != nil {
+				security.GetSessionCache().Invalidate(r.S.Neg.SessionId)
+			}
+			if r.S.Panic != "" {
+				panic("endpoint panic: " + r.S.Panic)
+			}
+			if r.Timeout {
+				return 0, fmt.Errorf("HANG")
+			}
+			return 0, r.S.Err
+		}
+	}
 	serverRun := func(script func(p *peerConn)) func() (int, error) {
 		return func() (int, error) {
 			sc := baseCfg(security.SecurityPreferred, security.SecurityOptional, []security.AuthMethod{mCTB, mTOK, security.AuthSSL}, []security.CryptoMethod{security.CryptoAES}, true)
@@ -612,6 +631,41 @@ func c13SuiteHandshake(tier string) []c13Input {
 			_ = p.sendMsg(append(refcodec.EncInt(dcAuthenticate), cad().encode(false)...), false)
 			_, _ = p.recvMsg()
 			_ = p.sendMsg(refcodec.EncInt(n), false)
+			_, _ = p.recvMsg()
+		})})
+		// SSL / SCITOKENS as a client: the length field of a tunnelled TLS message, and the
+		// 4-byte SciToken size the server reads over the established TLS connection
+		sslPrelude := func(p *peerConn, bit int64, methods string) bool {
+			a := newWireAd()
+			a.setS("AuthMethods", methods).setS("CryptoMethods", "").setS("Authentication", "REQUIRED").setS("Encryption", "NEVER").setS("Integrity", "NEVER")
+			a.setI("Command", 5)
+			if p.sendMsg(append(refcodec.EncInt(dcAuthenticate), a.encode(false)...), false) != nil {
+				return false
+			}
+			if _, err := p.recvMsg(); err != nil {
+				return false
+			}
+			if p.sendMsg(refcodec.EncInt(bit), false) != nil {
+				return false
+			}
+			_, err := p.recvMsg()
+			return err == nil
+		}
+		in = append(in, c13Input{entry: "server.sslMessage", class: "length=" + ic, desc: fmt.Sprintf("tunnelled TLS message announcing %d bytes", n), served: 600, run: serverRunSSL(func(p *peerConn) {
+			if sslPrelude(p, 256, "SSL") {
+				_, _ = sslScriptedClient(p, n&0x7fffffffffffffff)
+			}
+		})})
+		in = append(in, c13Input{entry: "server.sciTokenSize", class: "size=" + intClass(int64(uint32(n))), desc: fmt.Sprintf("SciToken announced as %d bytes, 3 sent", uint32(n)), served: 8000, run: serverRunSSL(func(p *peerConn) {
+			if !sslPrelude(p, 4096, "SCITOKENS") {
+				return
+			}
+			tc, err := sslScriptedClient(p, -1)
+			if err != nil {
+				return
+			}
+			sz := uint32(n)
+			_, _ = tc.Write([]byte{byte(sz >> 24), byte(sz >> 16), byte(sz >> 8), byte(sz), 'a', 'b', 'c'})
 			_, _ = p.recvMsg()
 		})})
 		in = append(in, c13Input{entry: "server.claimToBe", class: "status=" + ic, desc: fmt.Sprintf("CLAIMTOBE status %d + 2000-byte name", n), served: 2500, cap: 1024, run: serverRun(func(p *peerConn) {
@@ -910,7 +964,7 @@ func tail(s string) string {
 func C13Plan() *vlib.Plan {
 	p := &vlib.Plan{
 		Property: "C13", Level: "exploration",
-		Rule:   "Bounded structure-aware exhaustion of every decoder entry point: (stream) 5 receive entry points x {plain, AES-GCM} x all 1-byte strings, all strings of 2-3 (thorough 4) bytes over a 16-value header alphabet, end flag x length boundary product x {no, partial, full body}, runs of 10 / 10^3 / 2*10^5 empty and 1-byte partial frames; (message) 11 typed/ClassAd readers + GetBytes(n) for 17 boundary n, x {one frame, 1-byte frames, missing end} x both modes x payloads = boundary integer (17 values from MinInt64 to MaxInt64) followed by 9 string shapes (empty, unterminated, marker, cap-1/cap/cap+1/10xcap, 100 KB), every truncation of a valid ad, count field over the catalogue, secret marker followed by 10 B..900 KB, ads of 2/5/50 attributes (plain or marker+secret, both string forms) each below the cap but summing above it, every length-prefixed string <= 4 bytes over {Z,K,M,NUL,=} as an ad's only expression (marker with / without its terminator), 20000 tiny expressions; (handshake) real ClientHandshake / ServerHandshake against scripted peers that put every catalogue integer into every length/count/status field they read (server ad, method reply, 5 exchangeKey fields, post-auth ad, SSL message length, FS result, 6 TOKEN step-2 fields; client ad, command, bitmask, CLAIMTOBE, 3 TOKEN step-1 fields, resumption request) and 4 KB..900 KB oversize ads; (text) all strings <= 5 (thorough 6) over 12-symbol alphabets through 8 parsers, crypto-state blob length fields. Oracle per input: no panic (recovered in the worker), no abort (out-of-memory under ulimit -v 6 GiB, stack overflow under a 16 MiB stack, attributed by the parent to the input in flight), no spin (15 s of CPU, or 5 min of wall-clock time, on one input), TotalAlloc <= 256 x (bytes served + cap) + 4 MiB, capped readers consume <= cap + one frame. Non-trivial = the decoder was invoked on the input (distinct inputs by construction).",
+		Rule:   "Bounded structure-aware exhaustion of every decoder entry point: (stream) 5 receive entry points x {plain, AES-GCM} x all 1-byte strings, all strings of 2-3 (thorough 4) bytes over a 16-value header alphabet, end flag x length boundary product x {no, partial, full body}, runs of 10 / 10^3 / 2*10^5 empty and 1-byte partial frames; (message) 11 typed/ClassAd readers + GetBytes(n) for 17 boundary n, x {one frame, 1-byte frames, missing end} x both modes x payloads = boundary integer (17 values from MinInt64 to MaxInt64) followed by 9 string shapes (empty, unterminated, marker, cap-1/cap/cap+1/10xcap, 100 KB), every truncation of a valid ad, count field over the catalogue, secret marker followed by 10 B..900 KB, ads of 2/5/50 attributes (plain or marker+secret, both string forms) each below the cap but summing above it, every length-prefixed string <= 4 bytes over {Z,K,M,NUL,=} as an ad's only expression (marker with / without its terminator), 20000 tiny expressions; (handshake) real ClientHandshake / ServerHandshake against scripted peers that put every catalogue integer into every length/count/status field they read (server ad, method reply, 5 exchangeKey fields, post-auth ad, SSL message length, FS result, 6 TOKEN step-2 fields; client ad, command, bitmask, CLAIMTOBE, 3 TOKEN step-1 fields, resumption request; through a scripted TLS-over-CEDAR client: the tunnelled TLS message length and the SciToken size read over the established TLS connection) and 4 KB..900 KB oversize ads; (text) all strings <= 5 (thorough 6) over 12-symbol alphabets through 8 parsers, crypto-state blob length fields. Oracle per input: no panic (recovered in the worker), no abort (out-of-memory under ulimit -v 6 GiB, stack overflow under a 16 MiB stack, attributed by the parent to the input in flight), no spin (15 s of CPU, or 5 min of wall-clock time, on one input), TotalAlloc <= 256 x (bytes served + cap) + 4 MiB, capped readers consume <= cap + one frame. Non-trivial = the decoder was invoked on the input (distinct inputs by construction).",
 		Assume: []string{"inputs outside the generated grammar are not covered (the property's fuzzing wording is claimed in this bounded form)", "memory judged by Go's TotalAlloc; SCITOKENS/KERBEROS readers not reached"},
 	}
 	p.Gen = func(tier string, yield func(vlib.Case)) {
